@@ -11,7 +11,6 @@ import (
 	"strconv"
 	"strings"
 	"sync"
-	"time"
 
 	"github.com/confluentinc/confluent-kafka-go/kafka"
 
@@ -209,14 +208,23 @@ func execTracker(input string) string {
 			outs = append(outs, res(a.AddRecoveryRequest(int32(pi(1)), pi(2), pi(3))))
 		case "padd":
 			// two requests for one partition filed concurrently; the first caller's broadcast stalls in the transport
+			stalling, done1 := make(chan struct{}), make(chan struct{})
 			ctx.mu.Lock()
 			ctx.stallNext = true
+			ctx.stalling = stalling
 			ctx.mu.Unlock()
 			var wg sync.WaitGroup
 			var e1, e2 error
 			wg.Add(2)
-			go func() { defer wg.Done(); e1 = a.AddRecoveryRequest(int32(pi(1)), pi(2), pi(3)) }()
-			time.Sleep(2 * time.Millisecond)
+			go func() { defer wg.Done(); defer close(done1); e1 = a.AddRecoveryRequest(int32(pi(1)), pi(2), pi(3)) }()
+			// the second caller arrives once the first one's broadcast is under way (or the first has returned without one)
+			select {
+			case <-stalling:
+			case <-done1:
+				ctx.mu.Lock()
+				ctx.stallNext, ctx.stalling = false, nil
+				ctx.mu.Unlock()
+			}
 			go func() { defer wg.Done(); e2 = a.AddRecoveryRequest(int32(pi(1)), pi(4), pi(5)) }()
 			wg.Wait()
 			sent := ctx.sent[before:]
